@@ -312,37 +312,24 @@ func ruleC10Root(p *Prog, a *Anchors, r *Report) {
 		}
 		v := res(ret, 0)
 		key := p.FuncName(builder) + ":selects-root"
-		phi, ok := v.(*ssa.Phi)
-		if !ok {
-			if v == ssa.Value(builder.Params[0]) {
-				r.Bad(key, p.InstrPos(ret), "the executed template is the receiver itself: a child template would render its own document instead of its base's")
-			} else {
-				r.Unk(key, p.InstrPos(ret), "cannot recognise how the template to execute is selected (%s)", p.VN(v))
-			}
+		// in place, or as the result of a helper whose body is the walk starting at the parameter that receives the receiver
+		sel := c10SelectsRoot(p, v, ret, builder.Params[0], 0)
+		if !sel.known {
+			r.Unk(key, p.InstrPos(ret), "cannot recognise how the template to execute is selected (%s)", p.VN(v))
 			continue
 		}
-		hasRecv, hasParent := false, false
-		for _, e := range phi.Edges {
-			if e == ssa.Value(builder.Params[0]) {
-				hasRecv = true
-			}
-			if base, n, fld := fieldLoadBase(e); n != nil && n.Obj().Name() == "Template" && fld == "parent" && base == ssa.Value(phi) {
-				hasParent = true
-			}
+		if sel.self {
+			r.Bad(key, p.InstrPos(ret), "the executed template is the receiver itself: a child template would render its own document instead of its base's")
+			continue
 		}
-		// loop exit: parent == nil
-		exit := Guarded(ret, func(c ssa.Value, pol bool) bool {
-			x, eq, isNil := condIsNilTest(c)
-			if !isNil || eq != pol {
-				return false
+		if sel.good() {
+			if sel.via != nil {
+				r.OK(key, p.InstrPos(ret), "the result of %s on the receiver, which starts at its receiver, follows .parent, stops when parent == nil", p.FuncName(sel.via))
+			} else {
+				r.OK(key, p.InstrPos(ret), "starts at the receiver, follows .parent, stops when parent == nil")
 			}
-			base, n, fld := fieldLoadBase(x)
-			return n != nil && n.Obj().Name() == "Template" && fld == "parent" && base == ssa.Value(phi)
-		})
-		if hasRecv && hasParent && exit {
-			r.OK(key, p.InstrPos(ret), "starts at the receiver, follows .parent, stops when parent == nil")
 		} else {
-			r.Bad(key, p.InstrPos(ret), "the template to execute is not the root ancestor (starts at receiver: %v, follows parent: %v, stops at parent == nil: %v)", hasRecv, hasParent, exit)
+			r.Bad(key, p.InstrPos(ret), "the template to execute is not the root ancestor (starts at receiver: %v, follows parent: %v, stops at parent == nil: %v)", sel.hasRecv, sel.hasParent, sel.exit)
 		}
 	}
 }
@@ -384,32 +371,7 @@ func ruleC10Last(p *Prog, a *Anchors, r *Report) {
 	}
 	// in Execute: executed wrapper = list[len(list)-1]; Super gets list[0:len-1]
 	checkLast := func(f *ssa.Function, what string) {
-		for _, b := range f.Blocks {
-			for _, in := range b.Instrs {
-				ci, ok := in.(ssa.CallInstruction)
-				if !ok || ci.Common().StaticCallee() == nil || ci.Common().StaticCallee().Name() != "Execute" || len(ci.Common().Args) == 0 {
-					continue
-				}
-				if n := structOf(ci.Common().Args[0].Type()); n == nil || n.Obj().Name() != "NodeWrapper" {
-					continue
-				}
-				w := ci.Common().Args[0]
-				key := p.FuncName(f) + ":executes-last"
-				u, ok := w.(*ssa.UnOp)
-				var ia *ssa.IndexAddr
-				if ok {
-					ia, _ = u.X.(*ssa.IndexAddr)
-				}
-				if ia == nil {
-					r.Unk(key, p.InstrPos(in), "the executed wrapper is not an element of the collected list (%s)", p.VN(w))
-					continue
-				}
-				if isLenMinusOne(p, ia.Index, ia.X) {
-					r.OK(key, p.InstrPos(in), "%s executes element len-1 of the definitions", what)
-				} else {
-					r.Bad(key, p.InstrPos(in), "%s executes element %s of the collected definitions, not the last (most-derived) one", what, p.VN(ia.Index))
-				}
-			}
+		checkRest := func(b *ssa.BasicBlock) {
 			for _, in := range b.Instrs {
 				sl, ok := in.(*ssa.Slice)
 				if !ok {
@@ -430,6 +392,45 @@ func ruleC10Last(p *Prog, a *Anchors, r *Report) {
 				} else {
 					r.Bad(key, p.InstrPos(in), "Super receives %s[%s:%s], not the less-derived definitions [0:len-1]", p.VN(sl.X), vnOrEmpty(p, sl.Low), vnOrEmpty(p, sl.High))
 				}
+			}
+		}
+		for _, b := range f.Blocks {
+			for _, in := range b.Instrs {
+				ci, ok := in.(ssa.CallInstruction)
+				if !ok || ci.Common().StaticCallee() == nil || ci.Common().StaticCallee().Name() != "Execute" || len(ci.Common().Args) == 0 {
+					continue
+				}
+				if n := structOf(ci.Common().Args[0].Type()); n == nil || n.Obj().Name() != "NodeWrapper" {
+					continue
+				}
+				w := ci.Common().Args[0]
+				key := p.FuncName(f) + ":executes-last"
+				ia := c10Elem(w)
+				if ia == nil {
+					// the wrapper is the result of a helper that returns element len-1 of the list it is given
+					switch verdict, g, detail := c10LastViaHelper(p, w, 0); verdict {
+					case c10LastOK:
+						r.OK(key, p.InstrPos(in), "%s executes element len-1 of the definitions (taken by %s from the list it is given)", what, p.FuncName(g))
+						continue
+					case c10LastBad:
+						r.Bad(key, p.InstrPos(in), "%s executes element %s of the collected definitions (taken by %s), not the last (most-derived) one", what, detail, p.FuncName(g))
+						continue
+					}
+					r.Unk(key, p.InstrPos(in), "the executed wrapper is not an element of the collected list (%s)", p.VN(w))
+					continue
+				}
+				if isLenMinusOne(p, ia.Index, ia.X) {
+					r.OK(key, p.InstrPos(in), "%s executes element len-1 of the definitions", what)
+				} else {
+					r.Bad(key, p.InstrPos(in), "%s executes element %s of the collected definitions, not the last (most-derived) one", what, p.VN(ia.Index))
+				}
+			}
+			checkRest(b)
+		}
+		// … also where the list is taken apart by a helper it is handed to
+		for _, g := range c10ListHelpers(p, f) {
+			for _, b := range g.Blocks {
+				checkRest(b)
 			}
 		}
 	}
@@ -527,7 +528,7 @@ func ruleC10Last(p *Prog, a *Anchors, r *Report) {
 						if restored {
 							r.OK(keyR, p.InstrPos(in), "after the definition has run, `block` is rebound or removed on every path")
 						} else {
-							r.Bad(keyR, p.InstrPos(in), "the definition runs in the enclosing context and leaves its own `block` behind: in {% block outer %}{% block inner %}…{% endblock %}{{ block.Super }}{% endblock %} Super refers to the inner block")
+							r.Bad(keyR, p.InstrPos(in), "the definition runs in the enclosing context and leaves its own `block` behind: in {%% block outer %%}{%% block inner %%}…{%% endblock %%}{{ block.Super }}{%% endblock %%} Super refers to the inner block")
 						}
 					}
 				}
